@@ -27,6 +27,7 @@ func main() {
 	})
 	r.Require("c05-locked-probes", 5000)
 	r.Require("c05-wipe-checks", 100)
+	r.Require("c05-locks-before-the-commit-of-an-operation", 10)
 	r.Require("c05-nonzero-buffers-seen-wiped", 300)
 	r.Require("c05-passphrase-change-batteries", 20)
 	r.Require("op:unlock-wrong", 50)
